@@ -203,6 +203,51 @@ CHECKS = {
     ),
 }
 
+# workloads / observability added after the three rounds of independently written breaking changes (DESIGN.md 9.4)
+EXTRA = {
+    "C01": " Also: election-night histories (one client polled three times while units start to report, every poll "
+           "judged), feeds with null cells (a missing count carries no votes), primary-style baseline_pointer configs, "
+           "county-level geographies.",
+    "C02": " Also: hamlet counties (groups predicted below one vote), uncontested counties/districts, election-night "
+           "histories on one client.",
+    "C03": " Also: election-night histories on one client (a memo of earlier counted votes would show), hamlet counties.",
+    "C04": " Also: a partition monitor (rows the bound regressions were fit on + calibration rows = reporting rows, "
+           "disjoint) and deterministic cases at exactly the minimum number of units.",
+    "C05": " Also: a direct part calling the model classes with frames whose row labels are shuffled / offset / "
+           "strings / duplicated, and configs in which several estimands share one baseline pointer.",
+    "C06": " Also: correct_from_presidential through the real client with a fake storage reader, unit-level "
+           "|margin| <= turnout, uncontested groups (margin exactly +-1), election-night histories.",
+    "C07": " Also: call lists handed over as list / tuple / set / frozenset / dict, a called contest without any vote.",
+    "C08": " Also: a second summary request with other weights / base / levels on the same model, the identical "
+           "request twice (T and sigmoid modes), retraction of calls on one model object compared with a fresh run, "
+           "weight dicts in random key order.",
+    "C09": " Also: fractional percentages just below the threshold, state-level blocklists, precedence "
+           "blocklist > zero-baseline > strange > modelled.",
+    "C10": " Victim kinds: nonreporting, blocklisted by unit and by state, zero-baseline, unexpected; perturbations "
+           "up to 30x; counties of mixed size.",
+    "C11": " Extra units of kinds: known county, unknown county, unknown district (district offices), state without "
+           "any baseline unit.",
+    "C12": " Also: argument objects shared between calls (not copied by the harness), the national summary requested "
+           "twice on one client, seed 0.",
+    "C13": "",
+    "C14": " Also: same-client histories (a stricter or failing earlier request must not raise the bar of a later "
+           "one), duplicates via the feed and via the baseline.",
+    "C15": " Also: one third of the runs save conformalization data to a recording storage client (the returned frame "
+           "must not be altered by it); groups whose scale statistic is exactly zero.",
+    "C16": " Direct frames carry row labels as the models produce them (restarting per frame) or permuted; the "
+           "holdout slice includes units outside the model.",
+    "C17": " Also: histories driven through get_versioned_results() over a stubbed version store (non-adjacent "
+           "repeated versions, reverts).",
+    "C18": " Also: gate outcome 'fail with no vote at all', argument modes copied / one shared dict / omitted, and "
+           "children in which the client fetches config and baseline from the (recording) storage.",
+    "C19": " Also: window bounds given as the same instants in arbitrary time zones and as ISO strings with offsets "
+           "through VersionedDataHandler.",
+    "C20": " Also: faults injected below fit() (the n-th underlying solve of the run fails once, every position), "
+           "two faults per run, the inaccuracy warning delivered through the real warnings machinery (CLARABEL status "
+           "flip for lambda_>0, warn_explicit with the measured origin for lambda_=0), and every other fit must be "
+           "executed exactly as in the fault-free run.",
+}
+
 NOT_YET = {}
 
 
@@ -224,7 +269,7 @@ def main():
             evidence_file=f"/verif/evidence/{pid}.json",
             replay_cmd_template=f"{PY} -m vlib.check {pid} --replay {{path}}",
             engine="vlib",
-            level_claimed=dict(category=c["category"], text=c["text"], design_ref=c["ref"]),
+            level_claimed=dict(category=c["category"], text=c["text"] + EXTRA.get(pid, ""), design_ref=c["ref"] + " and 9.4"),
             level_note=c["note"],
             technique=c["technique"],
         ))
